@@ -1037,6 +1037,22 @@ class SymBytes:
         else:
             self.items[i] = _check_byte(v)
 
+    def __delitem__(self, i):
+        if isinstance(i, slice):
+            start, stop, step = i.start, i.stop, i.step
+            if isinstance(start, SymInt):
+                start = start.__index__()
+            if isinstance(stop, SymInt):
+                stop = stop.__index__()
+            del self.items[slice(start, stop, step)]
+            return
+        if isinstance(i, SymInt):
+            i = i.__index__()
+        del self.items[i]
+
+    def clear(self):
+        self.items.clear()
+
     def __iter__(self):
         return iter(self.items)
 
